@@ -1555,16 +1555,31 @@ fn gen_view(rng: &mut Rng, depth: u32) -> J {
             if rng.chance(1, 3) {
                 f.push(("face".to_string(), js(&gen_face_str(rng))));
             }
+            // the offset of the last positive {"offset": n} chosen: margins are then drawn around usize::MAX - n
+            let mut edge_n: u64 = 1;
             for k in ["vertical", "horizontal"] {
                 if rng.chance(1, 2) {
-                    f.push((k.to_string(), js(*rng.pick(&["start", "center", "end", "expand", "shrink", "bad"]))));
+                    if rng.chance(2, 5) {
+                        let n: i64 = *rng.pick(&[1i64, 2, 5, -1, -4, i32::MAX as i64, -(i32::MAX as i64), i32::MIN as i64, 0, 1 << 31, -(1 << 32)]);
+                        if n > 0 && n <= i32::MAX as i64 {
+                            edge_n = n as u64;
+                        }
+                        f.push((k.to_string(), obj(vec![("offset", J::I(n))])));
+                    } else {
+                        f.push((k.to_string(), js(*rng.pick(&["start", "center", "end", "expand", "shrink", "bad"]))));
+                    }
                 }
             }
             if rng.chance(1, 2) {
                 let mut m: Vec<(String, J)> = vec![];
                 for k in ["left", "right", "top", "bottom"] {
                     if rng.chance(1, 2) {
-                        m.push((k.to_string(), if rng.chance(1, 3) { J::U(*rng.pick(&EXTREME)) } else { J::U(rng.below(4)) }));
+                        m.push((k.to_string(), match rng.below(6) {
+                            0 | 1 => J::U(*rng.pick(&EXTREME)),
+                            // around the point where margin + offset passes usize::MAX
+                            2 => J::U((u64::MAX - edge_n).wrapping_add(rng.below(4)).wrapping_sub(1).max(1 << 63)),
+                            _ => J::U(rng.below(4)),
+                        }));
                     }
                 }
                 f.push(("margins".to_string(), if rng.chance(1, 8) { gen_scalar(rng) } else { J::O(m) }));
@@ -1717,6 +1732,65 @@ pub fn generate(rng: &mut Rng, n: usize, tier: &str) -> Vec<Value> {
                         let tagged = obj(vec![("type", js("tag")), ("tag", J::Null), ("view", flex)]);
                         v.push(json!({"kind": "view", "what": "view", "doc": j_to_spec(&tagged)}));
                     }
+                }
+            }
+        }
+    }
+    // Container: where two numbers of the document meet in one addition.  Child position = alignment offset +
+    // leading margin (top for vertical, left for horizontal); shrunk extent = child + leading + trailing margin.
+    // Every alignment form on each axis with margins around every boundary: for a positive offset n the
+    // sum passes usize::MAX between margin = MAX - n and MAX - n + 1.
+    {
+        let aligns: Vec<(J, u64)> = vec![
+            (js("start"), 1),
+            (js("center"), 1),
+            (js("end"), 1),
+            (js("expand"), 1),
+            (js("shrink"), 1),
+            (obj(vec![("offset", J::I(1))]), 1),
+            (obj(vec![("offset", J::I(3))]), 3),
+            (obj(vec![("offset", J::I(i32::MAX as i64))]), i32::MAX as u64),
+            (obj(vec![("offset", J::I(-1))]), 1),
+            (obj(vec![("offset", J::I(-3))]), 3),
+            (obj(vec![("offset", J::I(-(i32::MAX as i64)))]), i32::MAX as u64),
+            (obj(vec![("offset", J::I(i32::MIN as i64))]), 1u64 << 31),
+        ];
+        let leaf = || obj(vec![("type", js("text")), ("text", js("ab"))]);
+        for (axis, lead, trail) in [("vertical", "top", "bottom"), ("horizontal", "left", "right")] {
+            for (a, n) in aligns.iter() {
+                let edge = u64::MAX - n;
+                let margins: Vec<u64> = vec![0, 1, 1 << 31, 1 << 32, 1 << 62, 1 << 63, edge - 1, edge, edge + 1, edge.saturating_add(2), u64::MAX];
+                for (mi, m) in margins.iter().enumerate() {
+                    for which in 0..3u32 {
+                        let ms: Vec<(&str, J)> = match which {
+                            0 => vec![(lead, J::U(*m))],
+                            1 => vec![(trail, J::U(*m))],
+                            _ => vec![(lead, J::U(*m)), (trail, J::U(*m))],
+                        };
+                        let c = obj(vec![("type", js("container")), (axis, a.clone()), ("margins", obj(ms)), ("child", leaf())]);
+                        v.push(json!({"kind": "view", "what": "view", "doc": j_to_spec(&c)}));
+                        // around the boundary also below a flex (bare and wrapped; no flex factor: a child that is offered
+                        // no space is never laid out and has no subtree to compare) and a tag
+                        if which == 0 && mi >= 6 {
+                            let in_flex = obj(vec![("type", js("flex")), ("children", J::A(vec![c.clone(), obj(vec![("view", c.clone())])]))]);
+                            v.push(json!({"kind": "view", "what": "view", "doc": j_to_spec(&in_flex)}));
+                            let tagged = obj(vec![("type", js("tag")), ("tag", J::Null), ("view", c)]);
+                            v.push(json!({"kind": "view", "what": "view", "doc": j_to_spec(&tagged)}));
+                        }
+                    }
+                }
+            }
+        }
+        // both axes at once, an explicit size, and all four margins at the maximum
+        for a in [obj(vec![("offset", J::I(2))]), obj(vec![("offset", J::I(-2))]), js("center"), js("end")] {
+            for m in [u64::MAX, u64::MAX - 1, u64::MAX - 2, 1 << 63] {
+                let ms = obj(vec![("left", J::U(m)), ("right", J::U(m)), ("top", J::U(m)), ("bottom", J::U(m))]);
+                for size in [None, Some((2u64, 3u64)), Some((u64::MAX, u64::MAX))] {
+                    let mut f = vec![("type", js("container")), ("vertical", a.clone()), ("horizontal", a.clone()), ("margins", ms.clone()), ("child", leaf())];
+                    if let Some((h, w)) = size {
+                        f.push(("size", obj(vec![("height", J::U(h)), ("width", J::U(w))])));
+                    }
+                    v.push(json!({"kind": "view", "what": "view", "doc": j_to_spec(&obj(f))}));
                 }
             }
         }
